@@ -1,16 +1,3 @@
 #!/bin/sh
 # usage: tools/try_benign.sh <diff> [checks...]  - behaviour-preserving change: tests must pass and every check must stay silent
-PATCH="$(realpath "$1")"; shift
-CHECKS="${*:-C01 C02 C03 C04 C05 C06 C07 C08 C09 C10 C11 C12 C13 C14 C15 C16 C17 C18 C19}"
-WT="/tmp/vf-bn-$$"
-git -C /repo worktree add -q --detach "$WT" HEAD || exit 3
-trap 'git -C /repo worktree remove --force "$WT" >/dev/null 2>&1' EXIT
-BASE=0ed460a   # commit the seeded / benign patches were written against
-git -C "$WT" apply "$PATCH" 2>/dev/null || git -C "$WT" apply --3way "$PATCH" >/dev/null 2>&1 || {
-  git -C "$WT" reset -q --hard && git -C "$WT" checkout -q --detach "$BASE" && git -C "$WT" apply "$PATCH" && echo "NOTE: patch applied on its base commit $BASE (conflicts with later fix commits on HEAD)"; } || { echo "PATCH DOES NOT APPLY"; exit 3; }
-T=$(cd "$WT" && /venv/bin/python -m pytest -q -p no:cacheprovider -x 2>&1 | tail -1); echo "tests: $T"
-cd "$(dirname "$0")/.."
-for c in $CHECKS; do
-  OUT=$(VERIF_REPO="$WT" ./check "$c" --tier quick 2>&1); RC=$?
-  if [ "$RC" != 0 ]; then echo "ALARM $c rc=$RC"; echo "$OUT" | grep -E "violation key|INCONCLUSIVE|note:" | cut -c1-400 | head -8; else echo "$c silent $(echo "$OUT" | grep -E 'note:' | cut -c1-160 | head -2 | tr '\n' ' ')"; fi
-done
+exec python3 "$(dirname "$0")/try_benign.py" "$@"
